@@ -1,14 +1,11 @@
 (* C04 - SPEC: cutting a serialised element into SAX events (XML 1.0 grammar
    for start tags, end tags, empty-element tags, attributes, character data
-   with references and CDATA; no comments, PIs or DOCTYPE; Name validity is
+   with references, CDATA, comments and PIs; no DOCTYPE; Name validity is
    not checked beyond "no delimiter inside").  Used to state the tree round
    trip on the characters Element.plain() writes. *)
 From SV Require Import Lib.Base Gen.C04Tables C04.Model.
 Local Open Scope N_scope.
 
-Definition is_ws (c : N) : bool := (c =? 32) || (c =? 9) || (c =? 10) || (c =? 13).
-Definition BANG : N := 33.
-Definition QMARK : N := 63.
 
 Definition name_char (c : N) : bool :=
   negb (is_ws c || (c =? SLASH) || (c =? GT) || (c =? EQS) || (c =? LT) || (c =? AMP)
@@ -83,7 +80,9 @@ Fixpoint parse_attrs (fuel : nat) (s : str) : option (list (str * str) * bool * 
     end
   end.
 
-(* a run of character data: up to the next < that does not open a CDATA section *)
+(* a run of character data: up to the next < that opens a tag; CDATA sections,
+   comments and processing instructions are part of the run (xml_chardata_decode
+   gives them their meaning) *)
 Fixpoint take_run (fuel : nat) (s : str) : option (str * str) :=
   match fuel with
   | O => None
@@ -102,7 +101,33 @@ Fixpoint take_run (fuel : nat) (s : str) : option (str * str) :=
             end
           | None => None
           end
-        | None => Some ([], s)
+        | None =>
+          match strip_prefix comment_open_tail r with
+          | Some r1 =>
+            match scan_until dashdash r1 with
+            | Some (b, g :: r') =>
+              match take_run f r' with
+              | Some (run, rest) => Some (LT :: comment_open_tail ++ b ++ dashdash ++ g :: run, rest)
+              | None => None
+              end
+            | _ => None
+            end
+          | None =>
+            match r with
+            | q :: r1 =>
+              if q =? QMARK then
+                match scan_until pi_close r1 with
+                | Some (b, r') =>
+                  match take_run f r' with
+                  | Some (run, rest) => Some (LT :: QMARK :: b ++ pi_close ++ run, rest)
+                  | None => None
+                  end
+                | None => None
+                end
+              else Some ([], s)
+            | [] => Some ([], s)
+            end
+          end
         end
       else match take_run f r with
            | Some (run, rest) => Some (c :: run, rest)
@@ -110,6 +135,10 @@ Fixpoint take_run (fuel : nat) (s : str) : option (str * str) :=
            end
     end
   end.
+
+(* character data is reported only when it denotes at least one character *)
+Definition chars_event (v : str) (l : list ev) : list ev :=
+  match v with [] => l | _ => EvChars v :: l end.
 
 Fixpoint tokens (fuel : nat) (s : str) : option (list ev) :=
   match fuel with
@@ -130,17 +159,15 @@ Fixpoint tokens (fuel : nat) (s : str) : option (list ev) :=
             | _, _ => None
             end
           else if (c2 =? BANG) || (c2 =? QMARK) then
-            (* only CDATA among the <! constructs *)
-            if is_prefix cdata_open_tail r then
-              match take_run (S (length s)) s with
-              | Some (run, rest) =>
-                match xml_chardata_decode run with
-                | Some v => option_map (cons (EvChars v)) (tokens f rest)
-                | None => None
-                end
+            (* CDATA section, comment or processing instruction: character data *)
+            match take_run (S (length s)) s with
+            | Some (run, rest) =>
+              match xml_chardata_decode run with
+              | Some v => option_map (chars_event v) (tokens f rest)
               | None => None
               end
-            else None
+            | None => None
+            end
           else
             (* [40] STag / [44] EmptyElemTag *)
             let (n, r3) := take_name r in
@@ -158,7 +185,7 @@ Fixpoint tokens (fuel : nat) (s : str) : option (list ev) :=
         match take_run (S (length s)) s with
         | Some (run, rest) =>
           match xml_chardata_decode run with
-          | Some v => option_map (cons (EvChars v)) (tokens f rest)
+          | Some v => option_map (chars_event v) (tokens f rest)
           | None => None
           end
         | None => None
@@ -172,6 +199,11 @@ Definition xml_tokens (s : str) : option (list ev) := tokens (S (length s)) s.
 Example tokens_example :
   xml_tokens [60;97;32;120;61;39;49;39;62;104;105;60;98;47;62;60;47;97;62]   (* <a x='1'>hi<b/></a> *)
   = Some [EvStart [97] [([120], [49])]; EvChars [104;105]; EvStart [98] []; EvEnd [98]; EvEnd [97]].
+Proof. reflexivity. Qed.
+
+Example tokens_example_comment_pi :
+  xml_tokens [60;97;62;120;60;33;45;45;99;45;45;62;121;60;63;112;32;113;63;62;60;47;97;62]   (* <a>x<!--c-->y<?p q?></a> *)
+  = Some [EvStart [97] []; EvChars [120;121]; EvEnd [97]].
 Proof. reflexivity. Qed.
 
 (* evaluated by the harness: on the characters the implementation wrote, this
